@@ -81,6 +81,35 @@ def he_jobs(ctx, inv):
     return jobs
 
 
+def qs_consts(**kw):
+    c = {'Threads': '<-ThreadsDef', 'Locs': '<-LocsDef', 'InitVal': '<-InitValDef', 'Ord': '<-OrdCode', 'Weak': False,
+         'NT': 2, 'NG': 1, 'NCells': 1, 'NNodes': 3, 'MaxOps': 2, 'MaxFlush': 5, 'CheckOld': True, 'FullCycle': True}
+    c.update(kw)
+    return c
+
+
+QS_ACTIONS = ['Begin', 'Touch', 'StartExit', 'a_ld1', 'a_ld2', 'r_begin', 'er_begin', 'b_ldge', 'b_stle', 'b_cas', 'lr_begin', 'q_ldge', 'q_ldle', 't_ldle', 't_act',
+              't_ldge', 't_fence', 't_cas', 't_adopt', 't_done', 'q_stle', 'op_done', 'x_cas', 'r_ldle', 'x_ldge', 'x_abandon', 'x_release']
+
+
+def qs_jobs(ctx, inv):
+    """quiescent_state_based: three epochs, quiescent state when the last region is left, orphans with a target epoch"""
+    q = ctx.quick
+    mc = lambda name, **kw: tlc_mc(ctx, name, 'QSBR', qs_consts(**kw.pop('c', {})), invariants=kw.pop('inv', inv), view='mcview', **kw)
+    jobs = [
+        lambda: mc('qsbr_2t', workers=6, tmo=900, must_cover=QS_ACTIONS),
+        lambda: mc('qsbr_3t_exit', c={'NT': 3, 'MaxOps': 1, 'MaxFlush': 0}, inv=['Safe'], workers=6, tmo=900),
+        lambda: mc('qsbr_toggle_ignore_previous_epoch', c={'CheckOld': False}, inv=['Safe'], workers=4, expect='violation'),
+        lambda: mc('qsbr_toggle_orphans_current_epoch', c={'NT': 3, 'MaxOps': 1, 'MaxFlush': 0, 'FullCycle': False}, inv=['Safe'], workers=4, expect='violation'),
+    ]
+    if not q:
+        jobs += [
+            lambda: mc('qsbr_2t_2guards', c={'NG': 2, 'MaxOps': 3, 'NNodes': 4}, workers=12, tmo=3000),
+            lambda: mc('qsbr_3t_flush', c={'NT': 3, 'MaxOps': 1, 'MaxFlush': 4}, workers=12, tmo=3000),
+        ]
+    return jobs
+
+
 def run_models(ctx, pid):
     q = ctx.quick
     inv = {'C01': ['Safe'], 'C02': ['Safe', 'NoLeak'], 'C18': ['Safe', 'SlotsConserved'], 'C17': ['Safe', 'NoLeak']}[pid]
@@ -107,6 +136,8 @@ def run_models(ctx, pid):
         ]
     if pid in ('C01', 'C02', 'C17'):
         jobs += eb_jobs(ctx, ['Safe'] if pid == 'C01' else inv)
+    if pid in ('C01', 'C02', 'C17'):
+        jobs += qs_jobs(ctx, ['Safe'] if pid == 'C01' else ['Safe', 'NoLeak'])
     if pid in ('C01', 'C02', 'C18'):
         jobs += he_jobs(ctx, {'C01': ['Safe'], 'C02': ['Safe', 'NoLeak'], 'C18': ['Safe', 'SlotsConserved']}[pid])
     run_parallel(jobs, maxw=3)
